@@ -629,6 +629,41 @@ def _plan_ext_runs(rng, lib):
     return runs
 
 
+def _plan_foldersince_runs(rng, lib):
+    """Clean: folder_paths combined with a lower modified bound (list_files_filtered / list_files_modified_since) where a file
+    below the requested folder is at or after the bound; the folder's own stamp (older / newer / absent) must not matter."""
+    runs = []
+    for d in lib.drives[:2]:
+        cands = []
+        for f in d.folders():
+            for n, pp in lib.walk_files(f, f.path()):
+                if _visible_stamp(n, "modified") is not None:
+                    cands.append((f, n))
+        rng.shuffle(cands)
+        for f, n in cands[:5]:
+            sec = _visible_stamp(n, "modified")[0] - rng.choice([0, 0, 1, 3600, 86400 * 30])
+            b = {"us": sec * 1_000_000, "tzmin": rng.choice([0, 0, 120, -300])}       # whole-second bounds are never 'sensitive'
+            fst = _visible_stamp(f, "modified")
+            tags = ["folder_paths", "folder+modified_after", "folder-stamp:" + ("absent" if fst is None else "older" if fst[0] < sec else "newer"), "bound:second-floor"]
+            paths = [f.path()]
+            if rng.random() < 0.3:
+                others = [g.path() for g in d.folders() if g is not f and not g.path().startswith(f.path() + "/") and not f.path().startswith(g.path() + "/")]
+                if others:
+                    paths.insert(rng.randrange(2), rng.choice(others))
+            if rng.random() < 0.5:
+                rs = {"api": "modified_since", "since": b, "folder_paths": paths, "tags": tags, "feature": "clean"}
+            else:
+                flt = {"folder_paths": paths, "modified_after": b}
+                if rng.random() < 0.3:
+                    flt["modified_before"] = {"us": 2_000_000_000_000_000, "tzmin": 0}
+                rs = {"api": "filtered", "filter": flt, "tags": tags + ["modified_after"], "feature": "clean"}
+            if d is not lib.default_drive:
+                rs["drive"] = d.id
+                tags.append("named-drive")
+            runs.append(rs)
+    return runs
+
+
 def _prefix_pairs(lib, d):
     """(A, B): sibling folders where B's name starts with A's name, both with files below."""
     has = lambda f: any(True for _ in lib.walk_files(f, ""))
@@ -793,6 +828,18 @@ def plan_cases(run) -> list[dict]:
                     truns.append(t)
             cases.append({"cid": cid + 1, "lib": trc, "runs": truns, "enumerate": True, "feature": "clean", "twin_of": cid})
             cid += 2
+    made = tries = 0
+    n_fs = 8 if run.quick else 50
+    while made < n_fs and tries < n_fs * 20:                 # clean family: folder_paths + modified_after over folders with stamps of their own
+        tries += 1
+        rc = dict(recipe(rng.choice(["small", "small", "medium", "deep", "wide"])), folder_stamps=True)
+        lib = G.Library(rc)
+        runs = _plan_foldersince_runs(random.Random(f"plan:{rc['seed']}"), lib)
+        if not runs:
+            continue
+        made += 1
+        cases.append({"cid": cid, "lib": rc, "runs": runs, "enumerate": False, "feature": "clean"})
+        cid += 1
     return cases
 
 
@@ -1044,7 +1091,7 @@ def main(run):
     cases.sort(key=lambda c: -({"large": 5, "medium": 3, "wide": 3, "deep": 2}.get(c["lib"]["shape"], 1) * (2 if c["enumerate"] else 0)))
     planned_pairs = 0
     judge_s = 0.0
-    for case, obs in pool.run_cases("checks.c18:work", cases, deadline_s=900 if not run.quick else 120):
+    for case, obs in pool.run_cases("checks.c18:work", cases, deadline_s=900):
         if not isinstance(obs, dict) or obs.get("_died") or obs.get("_timeout") or obs.get("_harness_error") or obs.get("_cpu_exhausted") or "runs" not in obs:
             run.inconclusive_cases += 1
             run.inconclusive(f"library {case['lib']} not observed: {str(obs)[:300]}")
@@ -1090,6 +1137,8 @@ def main(run):
         run.require("extension_filter_runs:" + t, judge.tag_runs[t], run.n(8, 60))
     for t in ("ext:compound", "ext:whole-name"):
         run.require("files_selected_by_" + t, c["files_selected_by_" + t], run.n(10, 80))
+    run.require("folder_paths_with_modified_after_runs", judge.tag_runs["folder+modified_after"], run.n(25, 150))
+    run.require("folder_older_than_bound_runs", judge.tag_runs["folder-stamp:older"], run.n(10, 60))
     run.require("slashed_folder_path_runs", judge.tag_runs["slashed-folder-path"], run.n(3, 15))
     run.require("responses_opened", c["responses_opened"], 1000)
     # "non-2xx without exception" must be injected from every status class outside 2xx (1xx, 3xx, 4xx, 5xx), at every request kind
